@@ -90,11 +90,22 @@ def ok_against_spec(spec, got):
 DECL = {"I": "int", "B": "bigint", "Y": "byte", "F": "float", "T": "bool"}
 
 
-def cli_program(case):
+def cli_program(case, inline=False):
+    """inline: the operands are written as literals inside the expression (what the compiler may evaluate itself);
+    otherwise they reach the operator through typed variables"""
     op = case[0]
     la = nc.literal(case[1])
     if la is None:
         return None
+    if inline:
+        if op == "neg":
+            return "print -(%s)\n" % la
+        if op == "not":
+            return "print !%s\n" % la
+        lb = nc.literal(case[2])
+        if lb is None:
+            return None
+        return "print (%s) %s (%s)\n" % (la, nc.SYMBOL[op], lb)
     src = "a: %s = %s\n" % (DECL[case[1][0]], la)
     if op == "neg":
         return src + "print -a\n"
@@ -106,12 +117,17 @@ def cli_program(case):
     return src + "b: %s = %s\nprint a %s b\n" % (DECL[case[2][0]], lb, nc.SYMBOL[op])
 
 
+def is_inline(i):
+    return i % 3 == 2
+
+
 def run_cli(ctx, binary, cases):
     """-> list of outcome tokens: value | ERR (mscript run-time error) | PANIC | REJECT (compile error) | ?<text>"""
     base = ctx.mktemp()
 
-    def one(case):
-        src = cli_program(case)
+    def one(ic):
+        i, case = ic
+        src = cli_program(case, is_inline(i))
         if src is None:
             return None
         d = programs.materialize({"files": {"m.ms": src}}, base)
@@ -126,7 +142,7 @@ def run_cli(ctx, binary, cases):
         tok = nc.parse_typed(lines[-1]) if len(lines) == 1 else None
         return tok if tok else "?" + out[:200]
 
-    return programs.pmap(one, cases)
+    return programs.pmap(one, list(enumerate(cases)))
 
 
 def cli_cases(ctx, n):
@@ -192,7 +208,7 @@ def run(ctx):
     for bname, bpath in (("debug", binary), ("release", core.build_repo(release=True))):
         sub = ccases if bname == "debug" else ccases[:max(60, n_cli // 4)]
         res = run_cli(ctx, bpath, sub)
-        for c, got, m in zip(sub, res, cmodel):
+        for ci, (c, got, m) in enumerate(zip(sub, res, cmodel)):
             if got is None:
                 continue
             if got == "REJECT":
@@ -204,12 +220,12 @@ def run(ctx):
                 spec_fail += 1
                 cls = "cli:" + failure_class(c, spec, got, bname) if not got.startswith("?") else "cli:unparsable-output"
                 ctx.report(cls, "%s `mscript run`: `%s` prints %s, the specification says %s" % (bname, " ".join(c), got, spec),
-                           {"case": c, "build": bname, "program": cli_program(c), "observed": got, "spec": spec,
+                           {"case": c, "build": bname, "program": cli_program(c, is_inline(ci)), "observed": got, "spec": spec,
                             "how": "MSCRIPT_VERIF_TYPED_PRINT=1 mscript run m.ms -q"})
             elif got != m[bname]:
                 dis += 1
                 ctx.report("correspondence:cli:%s:%s" % (c[0], bname), "impl-model and `mscript run` (%s) disagree on `%s`: observed=%s model=%s" % (bname, " ".join(c), got, m[bname]),
-                           {"case": c, "program": cli_program(c), "observed": got, "model": m}, found_input=False)
+                           {"case": c, "program": cli_program(c, is_inline(ci)), "observed": got, "model": m}, found_input=False)
     ctx.cov["evaluations"] = 2 * len(cases) + cli_cmp
     ctx.cov["distinct_nontrivial"] = len(nontrivial)
     ctx.cov["exhaustive"] = exhaustive
